@@ -66,7 +66,6 @@ TOTAL = {
     "std::net::UdpSocket::set_read_timeout",
     "std::net::UdpSocket::set_write_timeout",
     "std::net::UdpSocket::try_clone",
-    "std::path::Path::ancestors",
     "std::path::Path::display",
     "std::path::Path::exists",
     "std::path::Path::file_name",
@@ -603,6 +602,46 @@ class Models:
             c.set_dest({(): T(("unit", "()"))})
             return [c.st]
 
+        @reg("std::collections::VecDeque::pop_front", "std::collections::VecDeque::pop_back", "std::vec::Vec::pop")
+        def pop(c):
+            v = c.argv(0)
+            if v[0] != "r":
+                return None
+            n = c.eng.read(c.st, v[1], v[2] + ("$len",))
+            outs = []
+            s_none = c.st.fork()
+            if not s_none.ctx.infeasible_with([lin.le(n[1], lin.const(0))]):
+                s_none.ctx.add(lin.le(n[1], lin.const(0)))
+                c.set_dest({("$discr",): ICONST(0)}, s_none)
+                outs.append(s_none)
+            s_some = c.st
+            if not s_some.ctx.infeasible_with([lin.le(lin.const(1), n[1])]):
+                s_some.ctx.add(lin.le(lin.const(1), n[1]))
+                c.eng.write(s_some, v[1], v[2] + ("$len",), I(lin.sub(n[1], lin.const(1))), c.node)
+                c.eng.symctr += 1
+                c.set_dest({("$discr",): ICONST(1), (("v", 1), 0): T(("popped", c.site, c.eng.symctr))}, s_some)
+                outs.append(s_some)
+            return outs
+
+        @reg("core::num::<impl u16>::saturating_sub", "core::num::<impl usize>::saturating_sub", "core::num::<impl u8>::saturating_sub",
+             "core::num::<impl u32>::saturating_sub", "core::num::<impl u64>::saturating_sub")
+        def saturating_sub(c):
+            a, b = c.argv(0), c.argv(1)
+            if a[0] != "i" or b[0] != "i":
+                return None
+            outs = []
+            s1 = c.st.fork()
+            if not s1.ctx.infeasible_with([lin.le(b[1], a[1])]):
+                s1.ctx.add(lin.le(b[1], a[1]))
+                c.set_dest({(): I(lin.sub(a[1], b[1]))}, s1)
+                outs.append(s1)
+            s2 = c.st
+            if not s2.ctx.infeasible_with([lin.lt(a[1], b[1])]):
+                s2.ctx.add(lin.lt(a[1], b[1]))
+                c.set_dest({(): ICONST(0)}, s2)
+                outs.append(s2)
+            return outs
+
         @reg("std::collections::VecDeque::clear", "std::vec::Vec::clear")
         def clear(c):
             v = c.argv(0)
@@ -682,6 +721,8 @@ class Models:
                 s, e = start, end
                 cons = [lin.le(s, e), lin.le(e, ln)]
             c.eng.require(c.st, c.fr, c.bb, "range", "slice[%s]: start <= end <= len" % rk, cons)
+            if c.eng.record:
+                c.eng.index_log.append((c.node, c.fr.id, rk, s, e))
             root = ("H", c.site)
             c.st.store[root] = {("$len",): I(lin.sub(e, s)),
                                 ("$slice_of",): ("r", v[1], v[2], False),
@@ -743,14 +784,29 @@ class Models:
             c.set_dest(out)
             return [c.st]
 
+        @reg("std::path::Path::ancestors")
+        def ancestors(c):
+            # the iterator over a path and its parents; elements are tagged so that rules / monitors recognise them
+            v = c.argv(0)
+            pv = c.eng.read(c.st, v[1], v[2]) if v[0] == "r" and "E" not in v[2] else v
+            out = {(): T(("app", "std::path::Path::ancestors", c.site, (("ref", v, pv) if pv is not None and pv[0] == "t" else v,))),
+                   ("$kind",): T(("ancestors",))}
+            if v[0] == "r":
+                out[("$over",)] = ("r", v[1], v[2], False)
+            c.set_dest(out)
+            return [c.st]
+
         @reg("<std::slice::Iter<'a, T> as std::iter::Iterator>::next",
              "<std::slice::IterMut<'a, T> as std::iter::Iterator>::next",
-             "<std::collections::vec_deque::Iter<'a, T> as std::iter::Iterator>::next")
+             "<std::collections::vec_deque::Iter<'a, T> as std::iter::Iterator>::next",
+             "<std::path::Ancestors<'a> as std::iter::Iterator>::next")
         def iter_next(c):
             v = c.argv(0)
             over = None
+            kind = None
             if v[0] == "r":
                 over = c.st.store.get(v[1], {}).get(v[2] + ("$over",))
+                kind = c.st.store.get(v[1], {}).get(v[2] + ("$kind",))
             outs = []
             s_none = c.st.fork()
             c.set_dest({("$discr",): ICONST(0)}, s_none)
@@ -760,7 +816,8 @@ class Models:
             # unrelated to the elements of other iterations)
             c.eng.symctr += 1
             ovr = (over[1], over[2]) if over is not None and over[0] == "r" else None
-            elem = ("r", ("P", ("elem", c.site, c.eng.symctr, ovr)), (), bool(over[3]) if over is not None and over[0] == "r" else False)
+            etag = ("elem", c.site, c.eng.symctr, ovr) + ((kind[1][0],) if kind is not None and kind[0] == "t" else ())
+            elem = ("r", ("P", etag), (), bool(over[3]) if over is not None and over[0] == "r" else False)
             c.set_dest({("$discr",): ICONST(1), (("v", 1), 0): elem}, s_some)
             outs.append(s_some)
             return outs
@@ -776,9 +833,11 @@ class Models:
                 sub = c.eng.subtree(st, v[1], v[2])
                 ti0 = c.eng.prog.peel_refs(ti0) if ti0 is not None else None
             over = sub.get(("$over",))
+            kind = sub.get(("$kind",))
             c.eng.symctr += 1
             if over is not None and over[0] == "r":
-                return {(): ("r", ("P", ("elem", c.site, c.eng.symctr, (over[1], over[2]))), (), bool(over[3]))}
+                etag = ("elem", c.site, c.eng.symctr, (over[1], over[2])) + ((kind[1][0],) if kind is not None and kind[0] == "t" else ())
+                return {(): ("r", ("P", etag), (), bool(over[3]))}
             lo, hi = sub.get((0,)), sub.get((1,))
             ts = c.eng.prog.types[ti0]["s"] if ti0 is not None else ""
             if lo is not None and hi is not None and lo[0] == "i" and hi[0] == "i" and _range_kind(ts) == "Range":
@@ -847,10 +906,15 @@ class Models:
                         eng.iteration_continues(loop_id, s2, exit_state)
                         continue
                     if eng.record and s2.aids and c.t.get("t") is not None:
-                        # the edge from the callable's return to the continuation is taken by failing calls only
+                        # failing calls leave through a node of their own (the continuation is shared with the exhausted case)
                         frm = eng.arg_proj[s2.aids[0]]
+                        brk = (c.fr.id, ("break", c.bb))
+                        eng.arg_node(brk, s2)
+                        eng.edges.add((frm, brk, "flow"))
+                        eng.edges.add((brk, (c.fr.id, c.t["t"]), "flow"))
+                        eng.nodes[brk] = eng.nodes.get(brk, 0) + 1
                         if not lin.is_const(d[1]):
-                            eng.edge_conds.setdefault((frm, (c.fr.id, c.t["t"])), []).append(("eq", d[1], vi))
+                            eng.edge_conds.setdefault((frm, brk), []).append(("eq", d[1], vi))
                     out = dict(rsub)
                     out[("$discr",)] = ICONST(vi)
                     c.set_dest(out, s2)
@@ -923,6 +987,19 @@ class Models:
                 s = c.eng.named(("wrap", "sub" if sub else "add", bits, la, lb), (0, hi))
                 c.eng.link(lin.var(s), exact)
                 c.set_dest({(): ("i", lin.var(s), (bits, norm_mod(modform, bits)), ("wrapping", "sub" if sub else "add", la, lb))})
+            return [c.st]
+
+        @reg("core::num::<impl u16>::from_be_bytes", "core::num::<impl u16>::from_le_bytes")
+        def from_bytes(c):
+            # u16::from_be_bytes([hi, lo]) = 256 * hi + lo
+            sub = c.args[0][0]
+            a, b = sub.get((("a", 0),)), sub.get((("a", 1),))
+            if a is None or b is None or a[0] != "i" or b[0] != "i":
+                c.set_dest({(): I(lin.var(c.eng.named(("ret", ("app", c.base, c.site, (c.argv(0),))), (0, 65535))))})
+                return [c.st]
+            if c.base.endswith("from_le_bytes"):
+                a, b = b, a
+            c.set_dest({(): I(lin.add(lin.scale(a[1], 256), b[1]))})
             return [c.st]
 
         @reg("core::num::<impl u16>::to_be_bytes", "core::num::<impl u16>::to_le_bytes",
